@@ -504,7 +504,7 @@ STREAMS = {"fit": (stream_fit, 400, 4000), "edge": (stream_edge, 32, 320), "path
 
 
 def main():
-    chk = Check("C03")
+    chk = Check("C03", props_files=["Props/C03.v", "Props/C03gen.v"])
     chk.build()
     chk.proofs()
     if chk.replay_path:
